@@ -52,7 +52,7 @@ func pxVals(n *chain.Node) []stakingtypes.Validator {
 // limit; frame 2 has no grant.
 func pxBase() *chain.Node {
 	return baseChain("px", func() *chain.Node {
-		h := History{NumVals: 3, Coinomics: true}
+		h := History{NumVals: 4, Coinomics: true} // the validator that sorts last keeps only its self-delegation
 		o := hOpts(h)
 		o.Accounts = []chain.Account{pxSigner, pxThird, pxW, pxOther, pxVest}
 		n := chain.NewNode(o)
@@ -63,7 +63,7 @@ func pxBase() *chain.Node {
 		// fund the frame addresses and let them (and the third party) delegate: stands for earlier activity
 		for i := 0; i < pxFrames; i++ {
 			must(app.BankKeeper.SendCoins(ctx, pxOther.Addr, pxFrameAcc(i), sdk.NewCoins(islm(5000))))
-			fresh, _ := app.StakingKeeper.GetValidator(ctx, vals[i%len(vals)].GetOperator()) // re-read: Delegate writes the struct it is given
+			fresh, _ := app.StakingKeeper.GetValidator(ctx, vals[i%3].GetOperator()) // re-read: Delegate writes the struct it is given
 			_, err := app.StakingKeeper.Delegate(ctx, pxFrameAcc(i), islm(1000).Amount, stakingtypes.Unbonded, fresh, true)
 			must(err)
 		}
@@ -74,7 +74,7 @@ func pxBase() *chain.Node {
 				panic("px prelude tx failed: " + r.Log)
 			}
 		}
-		v := func(i int) sdk.ValAddress { return vals[i%len(vals)].GetOperator() }
+		v := func(i int) sdk.ValAddress { return vals[i%3].GetOperator() }
 		send(pxSigner, stakingtypes.NewMsgDelegate(pxSigner.Addr, v(0), islm(20000)), stakingtypes.NewMsgDelegate(pxSigner.Addr, v(1), islm(10000)))
 		send(pxThird, stakingtypes.NewMsgDelegate(pxThird.Addr, v(0), islm(7000)), stakingtypes.NewMsgDelegate(pxThird.Addr, v(2), islm(3000)))
 		send(pxSigner, stakingtypes.NewMsgUndelegate(pxSigner.Addr, v(0), islm(500)))
